@@ -48,7 +48,7 @@ def c10_worker(kp, job):
 def c10_document_level(chk, b):
     model = core.Model() if b.modelrun_ok else None
     full = chk.tier == 'thorough' or bool(b.drift) or not b.proof_ok
-    n = 300 if full else 40
+    n = core.budget(chk, full, 50, 300)
     results = engine.pmap(c10_worker, [(chk.seed, i) for i in range(n)])
     engine.settle(chk, results, model)
     chk.rule += ('; document level: generated documents with a clef in force for every note, clef changes, chords and splits: '
@@ -118,7 +118,7 @@ def c18_worker(kp, job):
 def c18_document_level(chk, b):
     model = core.Model() if b.modelrun_ok else None
     full = chk.tier == 'thorough' or bool(b.drift) or not b.proof_ok
-    n = 120 if full else 14
+    n = core.budget(chk, full, 14, 120)
     results = engine.pmap(c18_worker, [(chk.seed, i) for i in range(n)])
     engine.settle(chk, results, model)
     chk.rule += ('; document level: generated **kern documents whose one column is presented under **text, **dynam, **dyn, **harm, '
